@@ -18,6 +18,25 @@ CFG = ["instance_approximator", "instance_matcher", "edge_case_handler", "instan
 ARRAY_LABELS = {"PRED": [1, 2, 3, 5], "REF": [1, 3, 4, 5]}
 
 
+class LabelVec:
+    """1-D array of the (concrete) label values of an abstract array, e.g. np.unique(arr)."""
+
+    def __init__(self, items, side):
+        self.items = list(items)
+        self.side = side
+
+
+class BoolVec:
+    def __init__(self, items):
+        self.items = list(items)
+
+
+class _VM:
+    def __init__(self, o, name):
+        self.o = o
+        self.name = name
+
+
 class EvalInterp(ArrInterp):
     """ArrInterp + hooks for the pipeline entry points."""
 
@@ -39,7 +58,25 @@ class EvalInterp(ArrInterp):
         if short == "_check_array_integrity":
             return None
         if name == "numpy.unique" and args and isinstance(args[0], AArr):
-            return [0] + self.labels_of(args[0])
+            return LabelVec([0] + self.labels_of(args[0]), args[0].side)
+        if name == "numpy.isin" and args and isinstance(args[0], LabelVec):
+            from .arrdom import LabelKeys
+
+            keys = args[1]
+            if isinstance(keys, LabelKeys):
+                if keys.casts:
+                    r.__dict__.setdefault("narrowed_tests", []).append((node, keys))
+                keys = keys.value
+            if isinstance(keys, LabelVec):
+                keys = keys.items
+            if isinstance(keys, (list, tuple, set)):
+                inv = bool(kwargs.get("invert", False))
+                return BoolVec([(x in keys) != inv for x in args[0].items])
+            return Unknown("isin of label vector")
+        if name in ("numpy.setdiff1d",) and len(args) == 2 and isinstance(args[0], LabelVec):
+            other = args[1].items if isinstance(args[1], LabelVec) else (args[1].value if hasattr(args[1], "value") else args[1])
+            if isinstance(other, (list, tuple, set)):
+                return LabelVec([x for x in args[0].items if x not in other], args[0].side)
         if short == "panoptic_evaluate":
             names = [p.name for p in self.prog.func("panoptica_evaluator:panoptic_evaluate").call_params]
             kw = dict(zip(names, args))
@@ -70,12 +107,68 @@ class EvalInterp(ArrInterp):
     def get_attr(self, base, attr, node):
         if isinstance(base, Sym) and base.name == "console":
             return Sym("console." + attr)
+        if isinstance(base, LabelVec):
+            if attr == "dtype":
+                return Sym(f"dtypeof:{base.side}")
+            if attr == "size":
+                return len(base.items)
+            return _VM(base, attr)
+        if isinstance(base, BoolVec):
+            return _VM(base, attr)
         return super().get_attr(base, attr, node)
 
     def apply(self, fv, args, kwargs, node):
         if isinstance(fv, Sym) and fv.name.startswith("console."):
             return None
+        if isinstance(fv, _VM):
+            o, name = fv.o, fv.name
+            if isinstance(o, BoolVec):
+                if name == "all":
+                    return all(o.items)
+                if name == "any":
+                    return any(o.items)
+                if name == "sum":
+                    return sum(o.items)
+            if isinstance(o, LabelVec):
+                if name == "tolist":
+                    return list(o.items)
+                if name in ("copy", "astype"):
+                    return o
+            return Unknown(f"vector.{name}")
         return super().apply(fv, args, kwargs, node)
+
+    def iterate(self, it, node):
+        if isinstance(it, LabelVec):
+            return list(it.items)
+        return super().iterate(it, node)
+
+    def compare_hook(self, op, l, r, node):
+        if isinstance(l, LabelVec) and isinstance(r, int):
+            import operator as _op
+
+            f = {ast.Eq: _op.eq, ast.NotEq: _op.ne, ast.Gt: _op.gt, ast.GtE: _op.ge, ast.Lt: _op.lt, ast.LtE: _op.le}.get(type(op))
+            if f:
+                return BoolVec([f(x, r) for x in l.items])
+        return super().compare_hook(op, l, r, node)
+
+    def subscript_hook(self, base, idx, node):
+        if isinstance(base, LabelVec) and isinstance(idx, BoolVec) and len(idx.items) == len(base.items):
+            return LabelVec([x for x, k in zip(base.items, idx.items) if k], base.side)
+        if isinstance(base, LabelVec) and isinstance(idx, int):
+            return base.items[idx]
+        return super().subscript_hook(base, idx, node)
+
+    def call_builtin(self, name, args, kwargs, node):
+        if name == "len" and args and isinstance(args[0], LabelVec):
+            return len(args[0].items)
+        if name in ("list", "tuple", "set", "sorted") and args and isinstance(args[0], LabelVec):
+            return super().call_builtin(name, [list(args[0].items)] + list(args[1:]), kwargs, node)
+        return super().call_builtin(name, args, kwargs, node)
+
+    def unary_hook(self, op, v, node):
+        if isinstance(op, ast.Invert) and isinstance(v, BoolVec):
+            return BoolVec([not x for x in v.items])
+        return super().unary_hook(op, v, node)
 
 
 def construct(prog: Program, cls: Class, kwargs: dict, interp_cls=EvalInterp, **ikw) -> Obj:
@@ -142,7 +235,7 @@ def run_evaluate(prog: Program, ev: Obj, labels=None, call_kwargs=None):
         holder.append((it, pred, ref))
         return it
 
-    outs = enumerate_paths(make, max_paths=64)
+    outs = enumerate_paths(make, max_paths=256)
     return f, list(zip(outs, holder))
 
 
